@@ -12,5 +12,7 @@ CONSTANTS
   MaxSpur = 1
   SoloOn = TRUE
   Bug = ""
+  Hist = "off"
+  UseFast = TRUE
 INVARIANTS Refines SoloProgress
 CHECK_DEADLOCK FALSE
